@@ -104,7 +104,13 @@ func (dc *ClientDnsConnection) Close() error {
 		}
 	}
 
-	return dc.Communicator.Close()
+	err := dc.Communicator.Close()
+
+	// Release whoever is still blocked in Read or Write on this connection
+	dc.in.Close()
+	dc.out.Close()
+
+	return err
 }
 
 // Closed will return `true` if SafeStream.Close has been called at least once
